@@ -174,6 +174,19 @@ def check_case(ctx, case):
         def raw(*a, **k):
             passthrough.append((a, k))
             return inner(*a, **k)
+    elif via == "markcoro" and desc in ("function", "staticmethod") and kind == "async":
+        # a coroutine function by declaration: a synchronous functools.wraps pass-through around the `async def` that hands the coroutine on
+        # and is marked with inspect.markcoroutinefunction (what sync adapters do since Python 3.12)
+        import functools
+
+        inner = raw
+
+        @functools.wraps(inner)
+        def raw(*a, **k):
+            passthrough.append((a, k))
+            return inner(*a, **k)
+
+        raw = inspect.markcoroutinefunction(raw)
     elif via == "asyncwrap" and desc == "function" and kind == "def":
         # a coroutine function that wraps a synchronous def (run-in-thread / asyncify adapters): calling it returns a
         # coroutine; the return annotation copied from the sync function describes the awaited value, not the coroutine
@@ -406,7 +419,7 @@ def c07_case(draw):
         "postponed": draw(st.sampled_from([False, True])),  # evaluated annotation objects / 'from __future__ import annotations'
         "body_exc": draw(st.sampled_from(["ValueError", "RecursionError", "ValueError", "MemoryError", "LookupError", "FrozenError"])),
         "lambda_annotations": draw(st.sampled_from([True, False])),
-        "via": draw(st.sampled_from([None, "wraps", None, "asyncwrap", "wraps-jaxtyped", None, "wraps-option"])),
+        "via": draw(st.sampled_from([None, "wraps", None, "asyncwrap", "wraps-jaxtyped", None, "wraps-option", "markcoro"])),
     }
     return case
 
